@@ -84,11 +84,23 @@ func c15nRun(c *core.Ctx) {
 			c.Violation("scheduled-job-outfile-incomplete", fmt.Sprintf("round %d: after the scheduled job ended the outfile holds %q, want the complete result %q", round, got, want), round)
 			return
 		}
-		// the job is done: for three and a half query intervals nothing may touch the outfile or its temporary file
-		deadline := time.Now().Add(3500 * time.Millisecond)
+		// the job is done.  One query interval later everything of that run must have come to rest (its reporter may
+		// be in the middle of one last interim write when the run ends): from then on, for another two and a half
+		// intervals, nothing may touch the outfile or the temporary file beside it
+		ended := time.Now()
+		time.Sleep(1100 * time.Millisecond)
+		stamp := func() string {
+			fi, err := os.Stat(outfile + ".tmp")
+			if err != nil {
+				return "absent"
+			}
+			return fmt.Sprintf("%d bytes, modified %s", fi.Size(), fi.ModTime().Format("15:04:05.000000"))
+		}
+		rest := stamp()
+		deadline := ended.Add(3600 * time.Millisecond)
 		for time.Now().Before(deadline) {
-			if _, err := os.Stat(outfile + ".tmp"); err == nil {
-				c.Violation("finished-job-keeps-writing-beside-the-outfile", fmt.Sprintf("round %d: %d ms after the scheduled job ended, %s.tmp exists again: something of the finished run still writes interim results to the temporary file through which the next run moves its result into place", round, 3500-time.Until(deadline).Milliseconds(), "report.csv"), round)
+			if now := stamp(); now != rest {
+				c.Violation("finished-job-keeps-writing-beside-the-outfile", fmt.Sprintf("round %d: %d ms after the scheduled job ended, %s.tmp was written again (%s, before: %s): something of the finished run still writes interim results to the temporary file through which the next run moves its result into place", round, time.Since(ended).Milliseconds(), "report.csv", now, rest), round)
 				return
 			}
 			if got := read(); got != want {
@@ -107,7 +119,7 @@ func init() {
 		ReportAs: "C15",
 		Level:    "exploration",
 		Rule: "native part: three runs of a scheduled job (query with 'interval 1') inside one real server against the same outfile, the outfile removed and the log grown between runs, the real job-runner function called as the scheduler's timer does; after every run the outfile holds that run's complete result, " +
-			"and during the following 3.5 query intervals neither the outfile changes nor does <outfile>.tmp reappear (a writer left behind by a finished run would tear the next run's result)",
+			"and from one query interval after its end, for another 2.5 intervals, neither the outfile nor <outfile>.tmp is written any more (a writer left behind by a finished run would tear the next run's result)",
 		Assumptions: []string{"the job-runner function is called directly instead of waiting for the scheduler's one-minute timer"},
 		Serial:      true,
 		QuickBudget: 200 * time.Second,
